@@ -181,6 +181,17 @@ theorem ldir_copies (v : Variant) (n : Nat) (s : Cpu) (b : RecBus) (hc : Calm s 
             frame := by rw [d.frame, e9] }
 
 
+
+/-- **LDIR copies a block between non-overlapping ranges** (the textbook statement; `ldir_copies` with the
+weaker one-directional hypothesis is the stronger theorem). -/
+theorem ldir_copies_disjoint (v : Variant) (n : Nat) (s : Cpu) (b : RecBus) (hc : Calm s b)
+    (h0 : b.mem s.pc = 0xED) (h1 : b.mem (s.pc + 1) = 0xB0)
+    (hbc : s.bc.toNat = n + 1)
+    (hcode : ∀ j, j ≤ n → s.de + BitVec.ofNat 16 j ≠ s.pc ∧ s.de + BitVec.ofNat 16 j ≠ s.pc + 1)
+    (hdis : ∀ i j, i ≤ n → j ≤ n → s.de + BitVec.ofNat 16 j ≠ s.hl + BitVec.ofNat 16 i) :
+    LdirDone s b n (run v (n + 1) (s, b)).1 (run v (n + 1) (s, b)).2 :=
+  ldir_copies v n s b hc h0 h1 hbc hcode (fun i j hji hi => hdis i j hi (by omega))
+
 /-- What CPIR from `(s, b)` that found its byte at offset `k` has achieved in `(s', b')`. -/
 structure CpirFound (s : Cpu) (b : RecBus) (k : Nat) (s' : Cpu) (b' : RecBus) : Prop where
   mem : b'.mem = b.mem
@@ -579,6 +590,14 @@ example :
     tst (run .hw 3 (s, lawBus)).1.f FPV = false := by
   refine ⟨⟨rfl, rfl, rfl, rfl⟩, ?_⟩
   decide
+
+
+/-- the overlap hypothesis of `ldir_copies` is not superfluous: with DE = HL+1 (a source byte is overwritten
+before it is read) LDIR does not copy but replicates the first byte — the classic memory-fill idiom -/
+example :
+    let s : Cpu := { pc := 0x8000, h := 0x90, d := 0x90, e := 0x01, c := 2 }
+    (run .hw 2 (s, lawBus)).2.mem 0x9001 = 0x01 ∧ (run .hw 2 (s, lawBus)).2.mem 0x9002 = 0x01 ∧
+    lawBus.mem 0x9001 = 0x02 := by decide
 
 /-- CPIR finds 0x03 at offset 2 (k = 2) -/
 example :
